@@ -397,7 +397,11 @@ def _make_fields_iterator(
     # Otherwise, try using the public type-hints.
     else:
         attribs = inspection.get_type_hints(tp)
-        public_attribs = [k for k in attribs if not k.startswith("_")]
+        public_attribs = [
+            k
+            for k, hint in attribs.items()
+            if not k.startswith("_") and not inspection.isclassvartype(hint)
+        ]
     # If that didn't work, look for `__slots__`.
     if not public_attribs and hasattr(tp, "__slots__"):
         public_attribs = [s for s in tp.__slots__ if not s.startswith("_")]
